@@ -153,14 +153,15 @@ Move(from, to, ok) ==
     /\ UNCHANGED <<fh, it>>
 
 (* ---- directory entries as the callback / the iterator shows them                                *)
-(* e = [p: the "path" field (absolute) projected below the root, t: file_type bits, sz: file_size, *)
+(* e = [p: what the "path" field denotes, projected below the root, pabs: 1 iff that text starts   *)
+(*      with the separator ("Absolute path to the entry"), t: file_type bits, sz: file_size,       *)
 (*      rel: what the "relative_path" field denotes when resolved against the working directory,   *)
 (*      relabs: 1 iff the relative_path text starts with the separator]                            *)
 (* kind = -1 for a directory, -2 for a symbolic link (only the SYM_LINK bit of file_type and the   *)
 (* relative path are specified for those), else the length of the regular file.                    *)
 RelStyles == {"r", "d", "R"}                  \* the caller's path was relative to the working directory
 EntryIs(e, q, kind, style) ==
-    /\ kind # -2 => e.p = q
+    /\ kind # -2 => (e.p = q /\ e.pabs = 1)
     /\ CASE kind = -1 -> e.t = 4
          [] kind = -2 -> (e.t \div 2) % 2 = 1
          [] OTHER -> e.t = 1 /\ e.sz = kind
